@@ -228,6 +228,9 @@ def _ell2(res, efn):
     if len(rets) != 1:
         res.not_in_fragment.append("ELL-2: not a single returned expression")
         return
+    if sum(1 for _ in ast.walk(rets[0])) > 400:
+        res.not_in_fragment.append("ELL-2: returned expression too large for symbolic simplification")
+        return
     try:
         expr = tr(rets[0])
     except Out:
